@@ -225,6 +225,53 @@ func (db *Database) DeleteControllerInput(controllerName string, dep controller.
 	return nil
 }
 
+// DeleteController removes all outputs and inputs registered for the controller.
+//
+// It is used to roll back a controller registration which failed half-way.
+func (db *Database) DeleteController(controllerName string) {
+	db.mu.Lock()
+	defer db.mu.Unlock()
+
+	for resourceType, exclusiveController := range db.exclusiveOutputs {
+		if exclusiveController == controllerName {
+			delete(db.exclusiveOutputs, resourceType)
+		}
+	}
+
+	for resourceType, sharedControllers := range db.sharedOutputs {
+		sharedControllers = slices.DeleteFunc(sharedControllers, func(s string) bool {
+			return s == controllerName
+		})
+
+		if len(sharedControllers) == 0 {
+			delete(db.sharedOutputs, resourceType)
+		} else {
+			db.sharedOutputs[resourceType] = sharedControllers
+		}
+	}
+
+	for _, dep := range db.controllerInputs[controllerName] {
+		key := namespaceType{
+			Namespace: dep.Namespace,
+			Type:      dep.Type,
+		}
+
+		if id, ok := dep.ID.Get(); ok {
+			keyID := namespaceTypeID{namespaceType: key, ID: id}
+
+			db.inputLookupID[keyID] = slices.DeleteFunc(db.inputLookupID[keyID], func(s string) bool {
+				return s == controllerName
+			})
+		} else {
+			db.inputLookup[key] = slices.DeleteFunc(db.inputLookup[key], func(s string) bool {
+				return s == controllerName
+			})
+		}
+	}
+
+	delete(db.controllerInputs, controllerName)
+}
+
 // GetControllerInputs returns a list of controller dependencies.
 func (db *Database) GetControllerInputs(controllerName string) ([]controller.Input, error) {
 	db.mu.Lock()
